@@ -11,6 +11,10 @@ Stages of `get_peak_array_indices(values)`:
    successive differences is `< 0`, plus first and last;
 3. `np.take(non_zero_indices, …)` → `peaks` : back to original positions.
 
+`runs`, `peaksCleaned`, `peaks` are total helper stages: on the empty series NumPy raises `IndexError`
+(`values[0]` in `clean_out_non_changing`) whereas `peaks [] = [0, 0]`; the entry points with the error branch are
+`getPeakArrayIndices`, `getNCycArray`, `deltaSeries`, `pseudoCyclicSeries`, `deltaCleanedE`, `pseudoCleanedE`.
+
 Further entry points (all follow the tree with the planned fixes, `/tmp/repo_fixed`):
 * `peaksMax`, `peaksMin`, `getPeakArrayIndices` — the `ptype` selection with the fixed parity rule
   `first_move = values[peak_full_indices[1]] - values[peak_full_indices[0]]`;
@@ -72,6 +76,19 @@ def peaksMin (v : List Rat) : List Nat :=
 /-- `get_peak_array_indices(values, ptype='max')` for `values ≠ []` -/
 def peaksMax (v : List Rat) : List Nat :=
   if firstMove v > 0 then odds (peaks v) else evens (peaks v)
+
+/-- the parity rule of the **unchanged** tree, `values[1] - values[0]` (finding F11-1); not used by the model,
+kept so that the defect on flat starts can be exhibited (`Props/C11.lean`).  (For a one-sample series the unchanged
+code raises `IndexError` at `values[1]`; the `getD` default stands in for that case, which is not used.) -/
+def firstMoveUnfixed (v : List Rat) : Rat := v.getD 1 0 - v.getD 0 0
+
+/-- `ptype='max'` under the unchanged parity rule -/
+def peaksMaxUnfixed (v : List Rat) : List Nat :=
+  if firstMoveUnfixed v > 0 then odds (peaks v) else evens (peaks v)
+
+/-- `ptype='min'` under the unchanged parity rule -/
+def peaksMinUnfixed (v : List Rat) : List Nat :=
+  if firstMoveUnfixed v ≤ 0 then odds (peaks v) else evens (peaks v)
 
 /-- the `ptype` argument (`'all'` stands for every string other than `'min'`/`'max'`) -/
 inductive PType
